@@ -25,13 +25,17 @@
    reachable state.  This includes the crash between Open and the first write (F7a, 3aa388e) and EVERY point of the compaction (F7b,
    eb925d1 - C07_crash_close has no exception left).  A status update recorded by a new process AFTER a kill inside a write / update -
    torn tail or not - is what every query answers afterwards (F7c, 32b069b - C07_update_after_torn).
-   _partial (a limit of the proof, not of the code - the enumeration checks P1-P4 there): retention: every run not up for removal is
-   found intact (P1); rename: every run is found under exactly one name (P1).
+   Retention and rename are NOT atomic (one unlink(2) / rename(2) per history file - the intermediate states are visible:
+   C07_refuted_retention_atomic, C07_refuted_rename_atomic); what holds, exactly: every crash state of retention answers EVERY query as
+   the run map in which SOME of the runs that are up for removal are already removed (C07_crash_removeold); every crash state of rename
+   answers EVERY query - under the old name, the new name, any other DAG - as the run map in which SOME of the runs of d already belong
+   to d' (C07_crash_rename: each run is found under exactly one of the two names, latest / recent of a name list the runs currently
+   there).  Their P1 consequences are kept as C07_crash_removeold_P1 / C07_crash_rename_P1.
    The former _refuted witnesses of F7a / F7b / F7c are positive Examples now (C07_fixed_...).
    Premises: those of C06 (names_okb, closedb, premises) for the trace up to and including the interrupted operation. *)
 From Coq Require Import List String ZArith Bool Arith.
 Import ListNotations.
-From BD.Hist Require Import GoMatch Model SModel Spec ProofsString ProofsRefine ProofsTop ProofsC06 ProofsC06Ex ProofsC07 ProofsC07Ex.
+From BD.Hist Require Import GoMatch Model SModel Spec ProofsString ProofsRefine ProofsTop ProofsC06 ProofsC06Ex ProofsCrash ProofsC07 ProofsC07Ex.
 
 (* open / write / close / update / chtimes (atomic_op): EVERY crash state answers EVERY query of a fresh process as the run map
    BEFORE or AFTER the operation *)
@@ -75,19 +79,44 @@ Theorem C07_update_after_torn :
 Proof. exact torn_then_update0. Qed.
 Print Assumptions C07_update_after_torn.
 
-(* retention / deletion: whatever prefix of the unlinks was executed, a run that is not up for removal is found intact (P1) *)
-Theorem C07_crash_removeold_partial :
+(* retention / deletion, in full: whatever prefix of the unlinks was executed, EVERY query (find, latest, recent; every DAG) answers as
+   a run map H' that is the run map before the operation minus some of the runs that are up for removal: nothing is added, every run
+   that is not up for removal is there, no run twice (P1-P4 on the surviving runs) *)
+Theorem C07_crash_removeold :
+  forall loc dirhash D days K, names_okb loc dirhash D days K = true -> closedb D K = true ->
+  forall es d cutoff fs', premises loc dirhash D days K (es ++ [EOp (ORemoveOld d cutoff)]) ->
+  In fs' (crash_states loc dirhash (y_h (yrun loc dirhash sys_init es)) (ORemoveOld d cutoff)) ->
+  exists H', answers0 loc dirhash D days fs' H' /\ hist_okb H' = true
+    /\ (forall a, In a (h_runs H') -> In a (h_runs (sp_state es)))
+    /\ (forall a, In a (h_runs (sp_state es)) -> ~ (a_dag a = d /\ (a_mtime a < cutoff)%Z) -> In a (h_runs H'))
+    /\ NoDup (map a_id (h_runs H')).
+Proof. exact crash_removeold_full0. Qed.
+Print Assumptions C07_crash_removeold.
+(* ... its P1 consequence: a run that is not up for removal is found intact *)
+Theorem C07_crash_removeold_P1 :
   forall loc dirhash D days K, names_okb loc dirhash D days K = true -> closedb D K = true ->
   forall es d cutoff fs', premises loc dirhash D days K (es ++ [EOp (ORemoveOld d cutoff)]) ->
   In fs' (crash_states loc dirhash (y_h (yrun loc dirhash sys_init es)) (ORemoveOld d cutoff)) ->
   forall a, In a (h_runs (sp_state es)) -> In (a_dag a) D -> a_req a <> ""%string -> ~ (a_dag a = d /\ (a_mtime a < cutoff)%Z) ->
   fpayload (q_find loc dirhash fs' (a_dag a) (a_req a)) = last_opt (a_sts a).
 Proof. exact crash_removeold0. Qed.
-Print Assumptions C07_crash_removeold_partial.
+Print Assumptions C07_crash_removeold_P1.
 
-(* rename: whatever prefix of the renames was executed, runs of other DAGs are found intact and every run of the renamed DAG is found
-   intact under exactly one of the old and the new name (P1) *)
-Theorem C07_crash_rename_partial :
+(* rename, in full: whatever prefix of the renames was executed, EVERY query answers as a run map H' whose runs are the runs before the
+   operation, each either unchanged or (only if it belonged to d) moved to d' (rrel): a run is found under exactly one name, and latest /
+   recent of d, of d' and of every other DAG list exactly the runs that are there at that moment *)
+Theorem C07_crash_rename :
+  forall loc dirhash D days K, names_okb loc dirhash D days K = true -> closedb D K = true ->
+  forall es d d' fs', premises loc dirhash D days K (es ++ [EOp (ORename d d')]) ->
+  In fs' (crash_states loc dirhash (y_h (yrun loc dirhash sys_init es)) (ORename d d')) ->
+  exists H', answers0 loc dirhash D days fs' H' /\ hist_okb H' = true
+    /\ exists l, Permutation.Permutation l (h_runs (sp_state es)) /\ Forall2 (ProofsCrash.rrel d d') l (h_runs H').
+Proof. exact crash_rename_full0. Qed.
+Print Assumptions C07_crash_rename.
+Example C07_rrel_meaning : forall d d' a a', ProofsCrash.rrel d d' a a' <-> (a' = a \/ (a_dag a = d /\ a' = set_dag d' a)).
+Proof. intros. reflexivity. Qed.
+(* ... its P1 consequence *)
+Theorem C07_crash_rename_P1 :
   forall loc dirhash D days K, names_okb loc dirhash D days K = true -> closedb D K = true ->
   forall es d d' fs', premises loc dirhash D days K (es ++ [EOp (ORename d d')]) ->
   In fs' (crash_states loc dirhash (y_h (yrun loc dirhash sys_init es)) (ORename d d')) ->
@@ -97,7 +126,25 @@ Theorem C07_crash_rename_partial :
          (fpayload (q_find loc dirhash fs' d (a_req a)) = last_opt (a_sts a) /\ fpayload (q_find loc dirhash fs' d' (a_req a)) = None)
          \/ (fpayload (q_find loc dirhash fs' d (a_req a)) = None /\ fpayload (q_find loc dirhash fs' d' (a_req a)) = last_opt (a_sts a))).
 Proof. exact crash_rename0. Qed.
-Print Assumptions C07_crash_rename_partial.
+Print Assumptions C07_crash_rename_P1.
+
+(* full before-or-after atomicity is FALSE for retention and rename (by design of the store: file by file) - witnesses on the model *)
+Theorem C07_refuted_retention_atomic :
+  exists fs', In fs' rmStates
+    /\ sp_recent (sp_state es2) a 5 = [q2; q1] /\ sp_recent (sp_state (es2 ++ [EOp (ORemoveOld a 100%Z)])) a 5 = []
+    /\ snd (q_recent loc dh [] fs' a 5) = [q2].
+Proof. exact retention_not_atomic. Qed.
+Theorem C07_refuted_rename_atomic :
+  exists fs', In fs' mvStates
+    /\ sp_recent (sp_state es2) a 5 = [q2; q1] /\ sp_recent (sp_state es2) ab 5 = []
+    /\ sp_recent (sp_state (es2 ++ [EOp (ORename a ab)])) a 5 = [] /\ sp_recent (sp_state (es2 ++ [EOp (ORename a ab)])) ab 5 = [q2; q1]
+    /\ snd (q_recent loc dh [] fs' a 5) = [q2] /\ snd (q_recent loc dh [] fs' ab 5) = [q1]
+    /\ fpayload (q_find loc dh fs' a "req-aaaa-1") = None /\ fpayload (q_find loc dh fs' ab "req-aaaa-1") = Some q1.
+Proof. exact rename_not_atomic. Qed.
+Example C07_partial_ops_premises :
+  premisesb loc dh DE7 [] KE7 (es2 ++ [EOp (ORemoveOld a 100%Z)]) = true /\ premisesb loc dh DE7 [] KE7 (es2 ++ [EOp (ORename a ab)]) = true
+  /\ List.length rmStates = 3 /\ List.length mvStates = 5.
+Proof. exact partial_ops_premises. Qed.
 
 (* ---- the former refutation witnesses, repaired --------------------------------------------------------------------------- *)
 (* F7a (P3, P4) - before fix 3aa388e the model answered latest = error, recent 1 = nothing in the crash state with the empty newest file *)
